@@ -48,6 +48,7 @@ fn fop_to_json(o: &FOp) -> J {
         FOp::Wr(WrOp::Eagain) => J::Arr(vec![json::s("write_eagain")]),
         FOp::Wr(WrOp::Epipe) => J::Arr(vec![json::s("write_epipe")]),
         FOp::Wr(WrOp::Reset) => J::Arr(vec![json::s("write_reset")]),
+        FOp::Wr(WrOp::Errno(e)) => J::Arr(vec![json::s("write_errno"), json::i(*e)]),
         FOp::Wr(WrOp::Zero) => J::Arr(vec![json::s("write_zero")]),
         FOp::Enq(c, n) => J::Arr(vec![json::s("enqueue"), json::u(*c as usize), json::u(*n)]),
         FOp::Pop => J::Arr(vec![json::s("pop")]),
@@ -74,6 +75,7 @@ fn fop_from_json(j: &J) -> Result<FOp, String> {
         "write_eagain" => FOp::Wr(WrOp::Eagain),
         "write_epipe" => FOp::Wr(WrOp::Epipe),
         "write_reset" => FOp::Wr(WrOp::Reset),
+        "write_errno" => FOp::Wr(WrOp::Errno(a.get(1).and_then(|x| x.int()).ok_or("errno")? as i32)),
         "write_zero" => FOp::Wr(WrOp::Zero),
         "enqueue" => FOp::Enq(num(1)? as u16, num(2)?),
         "pop" => FOp::Pop,
